@@ -157,6 +157,9 @@ func (a *CBOAnalyzer) analyzeClass(classNode *parser.Node, filePath string, allC
 	// 3. Analyze instantiation and attribute access
 	a.analyzeInstantiationAndAccess(classNode, dependencies, result, allClasses)
 
+	// A class is not coupled to itself (self-instantiation, self-typed parameters)
+	delete(dependencies, classNode.Name)
+
 	// 4. Calculate final metrics
 	result.CouplingCount = len(dependencies)
 	result.DependentClasses = a.mapToSlice(dependencies)
